@@ -1544,6 +1544,170 @@ pub fn run(ctx: &mut Ctx, eng: &mut dyn Engine) {
         }
     }
 
+    // ---- 19e. Content-MD5 that is NOT canonical padded base64 (seeded change C09-9: check_md5 decodes both digests and answers `true`
+    //            when one cannot be decoded): unpadded, one pad, one char too many, URL-safe alphabet, garbage, lower case, empty -
+    //            x payload intact / one byte flipped, cenc null and deflate (one stored block).  The code compares the base64 TEXTS
+    //            (model: string equality): anything but the canonical text of the digest of the written bytes must end in `error`;
+    //            with a flipped byte `complete` is a violation whatever the attribute looks like (MD5 announced and checked).
+    for &cenc in &[Cenc::Null, Cenc::Deflate] {
+        let size = 50usize;
+        let data = content(&mut rng, size);
+        let canon = { use base64::Engine; base64::engine::general_purpose::STANDARD.encode(md5::compute(&data).0) };
+        let mut urlsafe: String = canon.replace('+', "-").replace('/', "_");
+        if urlsafe == canon {
+            urlsafe = format!("-{}", &canon[1..]);
+        }
+        let variants: Vec<String> = vec![
+            canon.clone(),
+            canon.trim_end_matches('=').to_string(),
+            format!("{}=", canon.trim_end_matches('=')),
+            format!("{}A", canon),
+            urlsafe,
+            "!!!!".to_string(),
+            canon.to_lowercase(),
+            String::new(),
+        ];
+        for v in &variants {
+            for flip in [None, Some(size / 2)] {
+                let mut data2 = data.clone();
+                if let Some(i) = flip {
+                    data2[i] ^= 0x10;
+                }
+                let (transfer, cenc_attr): (Vec<u8>, &str) = match cenc {
+                    Cenc::Deflate => {
+                        let l = size as u16;
+                        let mut t = vec![0x01, (l & 0xff) as u8, (l >> 8) as u8, (!l & 0xff) as u8, (!l >> 8) as u8];
+                        t.extend_from_slice(&data2);
+                        (t, " Content-Encoding=\"deflate\"")
+                    }
+                    _ => (data2.clone(), ""),
+                };
+                let oti = scheme_oti(0, 16, 4, 0, true);
+                let spec = ObjSpec { content: transfer.clone(), cenc: Cenc::Null, inband_cenc: false, md5: false, oti: None, transfers: 1 };
+                let sess = match make_session(&oti, &[spec], 1, 1) {
+                    Some(s) => s,
+                    None => continue,
+                };
+                let o = sess.objs[0].clone();
+                let xml = fdt_xml(&[format!(
+                    "<File TOI=\"{}\" Content-Location=\"file:///o0\" Content-Length=\"{}\" Transfer-Length=\"{}\"{} Content-MD5=\"{}\" FEC-OTI-FEC-Encoding-ID=\"0\" FEC-OTI-Maximum-Source-Block-Length=\"4\" FEC-OTI-Encoding-Symbol-Length=\"16\"/>",
+                    o.toi, size, transfer.len(), cenc_attr, v
+                )]);
+                let mut h: Vec<Option<Vec<u8>>> = Vec::new();
+                if cenc != Cenc::Null {
+                    h.push(Some(format!("#zmap {} {}", hex(&transfer), hex(&data2)).into_bytes()));
+                }
+                h.push(Some(format!("#expect {} {} {}", o.toi, if flip.is_some() { 'm' } else { 'g' }, hex(&data)).into_bytes()));
+                h.extend(fdt_packets(7, &xml).into_iter().map(Some));
+                for raw in &sess.pkts {
+                    if alc::parse_alc_pkt(raw).map(|p| p.lct.toi == o.toi).unwrap_or(false) {
+                        h.push(Some(raw.clone()));
+                    }
+                }
+                h.push(None);
+                let cc = CaseCfg { expect_mode: None, ..Default::default() };
+                r.ctx.count(&format!("md5-noncanonical:{}", if flip.is_some() { "flipped" } else { "intact" }));
+                r.case("md5-noncanonical", &cc, &sess, &[], &h, false);
+            }
+        }
+    }
+
+    // ---- 19f. the cache replay INSIDE push() fails (seeded change C09-10: the `state != Receiving` test moved before push_from_cache, the
+    //            packet that triggered the replay then hits the same failure: two terminal calls).  FDT File entry WITHOUT FEC-OTI
+    //            (attached: the writer will be created in push), packets WITHOUT EXT_FTI of blocks 1..n (cached), then one packet WITH
+    //            EXT_FTI: set_oti_from_pkt, init_object_writer (open), push_from_cache - which runs into the allocation limit
+    //            (object_max_cache_size small, 64-byte blocks) -> error() exactly once.
+    for (max, ncached) in [(150usize, 3u32), (200, 4), (200, 5), (150, 2), (10 << 20, 3)] {
+        let nblocks = ncached + 2;
+        let tl = nblocks as usize * 64;
+        let data = content(&mut rng, tl);
+        let dummy = {
+            let oti = scheme_oti(0, 16, 4, 0, true);
+            let spec = ObjSpec { content: content(&mut rng, 16), cenc: Cenc::Null, inband_cenc: false, md5: false, oti: None, transfers: 1 };
+            make_session(&oti, &[spec], 1, 1)
+        };
+        let sess = match dummy {
+            Some(s) => s,
+            None => continue,
+        };
+        let toi = sess.objs[0].toi;
+        let xml = fdt_xml(&[format!("<File TOI=\"{}\" Content-Location=\"file:///o0\" Content-Length=\"{}\" Transfer-Length=\"{}\"/>", toi, tl, tl)]);
+        let mk = |sbn: u32, esi: u32, inband: bool| -> Option<Vec<u8>> {
+            let oti2 = scheme_oti(0, 16, 4, 0, inband);
+            let off = sbn as usize * 64 + esi as usize * 16;
+            let f = hk::PktFields {
+                payload: data[off..off + 16].to_vec(),
+                transfer_length: tl as u64,
+                esi,
+                sbn,
+                toi,
+                fdt_id: None,
+                cenc: Cenc::Null,
+                inband_cenc: false,
+                close_object: false,
+                source_block_length: 0,
+                sender_current_time: false,
+            };
+            guarded(std::panic::AssertUnwindSafe(move || hk::new_alc_pkt(&oti2, &0u128, TSI, &f, false, now()))).ok()
+        };
+        let mut h: Vec<Option<Vec<u8>>> = fdt_packets(7, &xml).into_iter().map(Some).collect();
+        for sbn in 1..=ncached {
+            if let Some(p) = mk(sbn, 0, false) {
+                h.push(Some(p));
+            }
+        }
+        if let Some(p) = mk(ncached + 1, 0, true) {
+            h.push(Some(p));
+        }
+        // and what comes after: more packets with EXT_FTI (a new object is created for them when the first one ended)
+        if let Some(p) = mk(0, 0, true) {
+            h.push(Some(p));
+        }
+        h.push(None);
+        let cc = CaseCfg { expect_mode: None, max, ..Default::default() };
+        r.ctx.count("replay-fails-in-push");
+        r.case("replay-fails-in-push", &cc, &sess, &[], &h, false);
+    }
+
+    // ---- 19g. THE CRATE'S OWN WRITER BUILDERS (seeded changes C03-9: `ObjectWriterBufferBuilder::default()` with the MD5 check off,
+    //            C03-10: ObjectWriterFS answers enable_md5_check() = false until the file is open): an object with announced
+    //            Content-MD5, intact / one payload byte flipped, fed to a fresh real Receiver writing through
+    //            ObjectWriterBufferBuilder::default(), ::new(true) and ObjectWriterFSBuilder::new(dir, true).  Oracle-only op
+    //            `realwriter`: nothing that is not the sender's object may be held as complete / left in the destination.
+    for kind in ["bufdefault", "bufnew", "fs"] {
+        for flip in [None, Some(7usize), Some(40)] {
+            let size = 50usize;
+            let data = content(&mut rng, size);
+            let mut data2 = data.clone();
+            if let Some(i) = flip {
+                data2[i] ^= 0x04;
+            }
+            let md5_b64 = { use base64::Engine; base64::engine::general_purpose::STANDARD.encode(md5::compute(&data).0) };
+            let oti = scheme_oti(0, 16, 4, 0, true);
+            let spec = ObjSpec { content: data2.clone(), cenc: Cenc::Null, inband_cenc: false, md5: false, oti: None, transfers: 1 };
+            let sess = match make_session(&oti, &[spec], 1, 1) {
+                Some(s) => s,
+                None => continue,
+            };
+            let o = sess.objs[0].clone();
+            let xml = fdt_xml(&[format!(
+                "<File TOI=\"{}\" Content-Location=\"file:///o0\" Content-Length=\"{}\" Transfer-Length=\"{}\" Content-MD5=\"{}\" FEC-OTI-FEC-Encoding-ID=\"0\" FEC-OTI-Maximum-Source-Block-Length=\"4\" FEC-OTI-Encoding-Symbol-Length=\"16\"/>",
+                o.toi, size, size, md5_b64
+            )]);
+            let mut raws: Vec<Vec<u8>> = fdt_packets(7, &xml);
+            for raw in &sess.pkts {
+                if alc::parse_alc_pkt(raw).map(|p| p.lct.toi == o.toi).unwrap_or(false) {
+                    raws.push(raw.clone());
+                }
+            }
+            let joined = raws.iter().map(|r| hex(r)).collect::<Vec<_>>().join(".");
+            let h: Vec<Option<Vec<u8>>> = vec![Some(format!("#realwriter {} {} {}", kind, hex(&data), joined).into_bytes())];
+            let cc = CaseCfg { expect_mode: None, ..Default::default() };
+            r.ctx.count(&format!("real-writers:{}", kind));
+            r.case("real-writers", &cc, &sess, &[], &h, false);
+        }
+    }
+
     // ---- 20. OBJECT-level FTI poisoning (review batch 3): ONE forged datagram of the TOI with a conflicting EXT_FTI (transfer length
     //           2^40, another E, another B) arrives BEFORE the FDT and the genuine packets; the FDT is the authority: the object must
     //           be delivered byte-exact (before the repair in attach_fdt it ended `interrupted`)
